@@ -528,7 +528,8 @@ fn capi_expected(args: &[String]) {
     world::silence_panics();
     let text = std::fs::read_to_string(&args[2]).expect("behaviours");
     let epilogue = args.get(5).map(|s| s == "epilogue").unwrap_or(false);
-    let (prog, exp, nb) = amverif::capix::programs(&text, epilogue);
+    let variant = args.get(6).map(|s| s.as_str()).unwrap_or("list");
+    let (prog, exp, nb) = amverif::capix::programs(&text, epilogue, variant);
     std::fs::write(&args[3], prog).unwrap();
     std::fs::write(&args[4], exp).unwrap();
     println!("REPLAY capi behaviours={}", nb);
